@@ -1,5 +1,140 @@
-//! In-process exhaustive sweeps (filled in later).
-pub fn main(_args: &[String]) -> i32 {
-    eprintln!("sweep: not implemented");
-    2
+//! In-process exhaustive sweep of one coordinate field (C10 / C11, thorough tier).
+//!
+//! `aisobs sweep <type> <field> <off> <width> <P> <Q> <sentinel> <template-hex> <threads> [stride]`
+//!
+//! For every raw value of the `width`-bit field at bit offset `off` of the template message, decode the
+//! message with `ais::messages::parse` and compare the reported longitude / latitude with the raw
+//! value, using ONLY the constants given on the command line - which the orchestrator takes from the
+//! tables the TLA+ specification exported in the same run (width, offset, scale P/Q in micro-degrees
+//! per raw unit, sentinel).  The comparison is the same integer inequality as AisDecode!Close:
+//!     |micro * Q - raw * P| <= Q * (1 + |micro| / 2^21)
+//! and absent <=> raw = sentinel.  Output: one JSON line with counts and the first failures.
+
+use ais::messages::AisMessage;
+use std::sync::atomic::{AtomicU64, Ordering};
+use std::sync::{Arc, Mutex};
+
+fn put_bits(buf: &mut [u8], off: usize, w: usize, val: u64) {
+    for i in 0..w {
+        let bit = (val >> (w - 1 - i)) & 1;
+        let p = off + i;
+        let mask = 1u8 << (7 - (p % 8));
+        if bit == 1 {
+            buf[p / 8] |= mask;
+        } else {
+            buf[p / 8] &= !mask;
+        }
+    }
+}
+
+fn coord(m: &AisMessage, field: &str) -> Option<Option<f32>> {
+    let (lon, lat) = match m {
+        AisMessage::PositionReport(x) => (x.longitude, x.latitude),
+        AisMessage::BaseStationReport(x) => (x.longitude, x.latitude),
+        AisMessage::UtcDateResponse(x) => (x.longitude, x.latitude),
+        AisMessage::StandardAircraftPositionReport(x) => (x.longitude, x.latitude),
+        AisMessage::DgnssBroadcastBinaryMessage(x) => (x.longitude, x.latitude),
+        AisMessage::StandardClassBPositionReport(x) => (x.longitude, x.latitude),
+        AisMessage::ExtendedClassBPositionReport(x) => (x.longitude, x.latitude),
+        AisMessage::AidToNavigationReport(x) => (x.longitude, x.latitude),
+        AisMessage::LongRangeAisBroadcastMessage(x) => (x.longitude, x.latitude),
+        _ => return None,
+    };
+    Some(if field == "longitude" { lon } else { lat })
+}
+
+fn unhex(s: &str) -> Vec<u8> {
+    let b = s.as_bytes();
+    let mut out = Vec::new();
+    let mut i = 0;
+    while i + 1 < b.len() {
+        let h = (b[i] as char).to_digit(16).unwrap_or(0);
+        let l = (b[i + 1] as char).to_digit(16).unwrap_or(0);
+        out.push((h * 16 + l) as u8);
+        i += 2;
+    }
+    out
+}
+
+pub fn main(args: &[String]) -> i32 {
+    if args.len() < 9 {
+        eprintln!("usage: sweep <type> <field> <off> <width> <P> <Q> <sentinel> <template-hex> <threads> [stride]");
+        return 2;
+    }
+    let field = args[1].clone();
+    let off: usize = args[2].parse().unwrap();
+    let w: usize = args[3].parse().unwrap();
+    let p: i64 = args[4].parse().unwrap();
+    let q: i64 = args[5].parse().unwrap();
+    let sentinel: i64 = args[6].parse().unwrap();
+    let template = unhex(&args[7]);
+    let threads: u64 = args[8].parse().unwrap();
+    let stride: u64 = if args.len() > 9 { args[9].parse().unwrap() } else { 1 };
+    let total: u64 = 1u64 << w;
+    let checked = Arc::new(AtomicU64::new(0));
+    let absent = Arc::new(AtomicU64::new(0));
+    let bad = Arc::new(AtomicU64::new(0));
+    let fails: Arc<Mutex<Vec<String>>> = Arc::new(Mutex::new(Vec::new()));
+    let mut hs = Vec::new();
+    for t in 0..threads {
+        let (field, template) = (field.clone(), template.clone());
+        let (checked, absent, bad, fails) = (checked.clone(), absent.clone(), bad.clone(), fails.clone());
+        hs.push(std::thread::spawn(move || {
+            let lo = total * t / threads;
+            let hi = total * (t + 1) / threads;
+            let mut buf = template.clone();
+            let mut n = 0u64;
+            let mut na = 0u64;
+            let mut v = lo + ((stride - (lo % stride)) % stride);
+            while v < hi {
+                put_bits(&mut buf, off, w, v);
+                let raw: i64 = if v >= (1u64 << (w - 1)) { v as i64 - (1i64 << w) } else { v as i64 };
+                let r = std::panic::catch_unwind(|| ais::messages::parse(&buf));
+                let verdict: Result<(), String> = match r {
+                    Err(_) => Err("panic".to_string()),
+                    Ok(Err(_)) => Err("error".to_string()),
+                    Ok(Ok(m)) => match coord(&m, &field) {
+                        None => Err("no coordinate in this variant".to_string()),
+                        Some(None) => {
+                            na += 1;
+                            if raw == sentinel { Ok(()) } else { Err("absent".to_string()) }
+                        }
+                        Some(Some(x)) => {
+                            if raw == sentinel {
+                                Err(format!("sentinel reported as {}", x))
+                            } else {
+                                let micro = (x as f64 * 1e6).round() as i64;
+                                let lhs = (micro * q - raw * p).abs();
+                                let rhs = q * (1 + micro.abs() / 2097152);
+                                if lhs <= rhs { Ok(()) } else { Err(format!("value {}", x)) }
+                            }
+                        }
+                    },
+                };
+                if let Err(e) = verdict {
+                    bad.fetch_add(1, Ordering::Relaxed);
+                    let mut f = fails.lock().unwrap();
+                    if f.len() < 5 {
+                        f.push(format!("{{\"raw\":{},\"what\":\"{}\"}}", raw, e));
+                    }
+                }
+                n += 1;
+                v += stride;
+            }
+            checked.fetch_add(n, Ordering::Relaxed);
+            absent.fetch_add(na, Ordering::Relaxed);
+        }));
+    }
+    for h in hs {
+        let _ = h.join();
+    }
+    let f = fails.lock().unwrap();
+    println!(
+        "{{\"checked\":{},\"absent\":{},\"bad\":{},\"fails\":[{}]}}",
+        checked.load(Ordering::Relaxed),
+        absent.load(Ordering::Relaxed),
+        bad.load(Ordering::Relaxed),
+        f.join(",")
+    );
+    0
 }
